@@ -12,5 +12,6 @@ MCPlacements == {"separate", "inpkg"}
 MCTemplates  == {"testify", "matryer", "probe"}
 MCListings   == {"min", "I1", "all"}
 MCFormatters == {"goimports", "gofmt", "noop"}
+MCKinds      == {"ss", "si", "sm", "bp", "is"}
 MCAll        == {}
 =============================================================================
